@@ -61,8 +61,14 @@ def std_sources():
     return out
 
 
+def api_sources():
+    """the package's public wiring: a wrapper around an exported entry point changes what every user call means"""
+    path = "predicate/__init__.py"
+    return {path: norm(ast.parse(open(os.path.join(REPO, path), encoding="utf-8").read()))}
+
+
 def main():
-    cur = {"classes": class_sources(), "std": std_sources()}
+    cur = {"classes": class_sources(), "std": std_sources(), "api": api_sources()}
     if len(sys.argv) > 1 and sys.argv[1] == "--update":
         json.dump(cur, open(TABLE, "w"), indent=1, sort_keys=True)
         print("call_table.json updated:", len(cur["classes"]), "classes,", len(cur["std"]), "definitions")
@@ -71,13 +77,17 @@ def main():
     want = json.load(open(TABLE))
     bad_cls = sorted(c for c in set(want["classes"]) | set(cur["classes"]) if want["classes"].get(c) != cur["classes"].get(c))
     bad_std = sorted(c for c in set(want["std"]) | set(cur["std"]) if want["std"].get(c) != cur["std"].get(c))
+    bad_api = sorted(c for c in set(want.get("api", {})) | set(cur["api"]) if want.get("api", {}).get(c) != cur["api"].get(c))
     detail = {}
+    for c in bad_api:
+        detail[c] = {"model_written_against": (want.get("api", {}).get(c) or "")[:1500], "source_now": (cur["api"].get(c) or "")[:1500]}
     for c in bad_cls:
         w, g = want["classes"].get(c, {}), cur["classes"].get(c, {})
         detail[c] = {k: {"model_written_against": w.get(k), "source_now": g.get(k)} for k in set(w) | set(g) if w.get(k) != g.get(k)}
     for c in bad_std:
         detail[c] = {"model_written_against": want["std"].get(c), "source_now": cur["std"].get(c)}
-    json.dump({"changed_classes": bad_cls, "changed_std": bad_std, "detail": detail}, open(os.path.join(outdir, "call_tie.json"), "w"), indent=1)
+    json.dump({"changed_classes": bad_cls, "changed_std": bad_std, "changed_api": bad_api, "detail": detail},
+              open(os.path.join(outdir, "call_tie.json"), "w"), indent=1)
     print("call tie: changed classes", bad_cls, "changed std", bad_std)
 
 
